@@ -14,7 +14,7 @@ pub mod disk;
 pub mod io;
 pub mod shrink;
 
-pub use ctx::{Ctx, RngMode, Stream, Trace};
+pub use ctx::{Ctx, RngMode, SchedPolicy, Stream, Trace};
 pub use io::{ChunkPolicy, FaultKind, SimSink, SimSource, SinkCfg, SourceCfg};
 
 /// SplitMix64: seed expander and cheap mixer.
